@@ -21,7 +21,7 @@ ASSUMPTIONS = ['root-unusable error path is only asserted when the root has >=2 
 
 
 def budget(tier):
-    return {'quick': 800, 'thorough': 10000}[tier]
+    return {'quick': 1600, 'thorough': 12000}[tier]
 
 
 @st.composite
